@@ -34,11 +34,36 @@ class CodeMemo(BytecodeCache):
         _CODE[(self.config_key, bucket.key, bucket.checksum)] = bucket.code
 
 
+_GLOBAL_CACHES: list | None = None
+
+
 def clear_process_caches() -> None:
-    """Reset jinja's process-global caches so a run does not depend on history."""
+    """Reset jinja's process-global caches so a run does not depend on the runs before it in this
+    worker: jinja2.clear_caches() plus every LRUCache instance and every functools.lru_cache wrapper
+    found as a module-level global of a jinja2 module (so a cache added by a change to jinja is
+    reset too - what it does WITHIN a run is what the checks judge)."""
+    global _GLOBAL_CACHES
+    import sys
+
     import jinja2
+    from jinja2.utils import LRUCache
 
     jinja2.clear_caches()
+    if _GLOBAL_CACHES is None:
+        found = []
+        for name, mod in list(sys.modules.items()):
+            if mod is None or not (name == "jinja2" or name.startswith("jinja2.")):
+                continue
+            for v in list(vars(mod).values()):
+                if isinstance(v, LRUCache) or (callable(v) and hasattr(v, "cache_clear") and hasattr(v, "cache_info")):
+                    if not any(v is x for x in found):
+                        found.append(v)
+        _GLOBAL_CACHES = found
+    for c in _GLOBAL_CACHES:
+        try:
+            c.cache_clear() if hasattr(c, "cache_clear") else c.clear()
+        except Exception:
+            pass
 
 
 def _ae_by_name(name):
